@@ -449,6 +449,21 @@ class DoomedGen:
         op['efi'] = True
         return _finish(op, 'hybrid:efi-without-efi-boot-entry', True, 'hybrid-parameters')
 
+    def bad_relocated_name(self):
+        """set_relocated_name() outside its documented preconditions."""
+        m, r = self.m, self.r
+        if not m.rr:
+            return _finish({'op': 'set_relocated_name', 'name': 'MOVED', 'rr': 'moved'}, 'relocated-name:no-rock-ridge', False, 'relocated-name')
+        if m.rr_moved_name is not None:
+            other = 'X' + m.rr_moved_name[0][:6]
+            if other == m.rr_moved_name[0]:
+                other = 'Y' + other[1:]
+            return _finish({'op': 'set_relocated_name', 'name': other, 'rr': m.rr_moved_name[1]}, 'relocated-name:already-set', False, 'relocated-name')
+        if m.cfg['level'] != 4:
+            bad = r.choice(('lower', 'A/B', 'SP ACE', '', 'X' * 256))
+            return _finish({'op': 'set_relocated_name', 'name': bad, 'rr': 'moved'}, 'relocated-name:bad-identifier', True, 'relocated-name')
+        return None
+
     def state(self):
         return _finish({'op': 'new_again'}, 'state:new-on-initialised-object', False, 'object-state')
 
@@ -482,7 +497,7 @@ class DoomedGen:
 
     GENS = ('bad_iso_file_name', 'bad_iso_dir_name', 'joliet_too_long', 'udf_too_long', 'rr_too_long', 'symlink_other_namespace_taken', 'rm_dir_partly_nonempty', 'udf_symlink_component_too_long', 'bad_new',
             'depth', 'duplicate', 'duplicate', 'duplicate', 'missing_parent',
-            'missing_parent', 'wrong_type_rm', 'wrong_type_rm', 'eltorito_protected', 'wrong_extension', 'bad_boot', 'bad_hybrid', 'state',
+            'missing_parent', 'wrong_type_rm', 'wrong_type_rm', 'eltorito_protected', 'wrong_extension', 'bad_boot', 'bad_hybrid', 'bad_relocated_name', 'state',
             'io_fault_boot', 'io_fault_write')
 
     NAME_RULE_GENS = ('bad_iso_file_name', 'bad_iso_file_name', 'bad_iso_dir_name', 'joliet_too_long', 'depth', 'duplicate', 'duplicate', 'duplicate')
